@@ -583,14 +583,6 @@ func init() {
 			e.unsupported("math.Pow of symbolic values")
 			return nil
 		},
-		"math.Log": func(e *Engine, caller *frame, fn *ssa.Function, args []Value) Value {
-			x := args[0].(*Term)
-			if x.IsConst() {
-				return e.tt.F64Const(math.Log(x.F64()))
-			}
-			e.unsupported("math.Log of a symbolic value")
-			return nil
-		},
 		// ---- time (virtual clock) ----
 		"time.Sleep": func(e *Engine, caller *frame, fn *ssa.Function, args []Value) Value {
 			d := args[0].(*Term)
